@@ -24,6 +24,7 @@ RULE = ("cross product shape class (8) x dims (2,3) x transform kind (17 in 2D, 
 ASSUMPTIONS = ["points given to PWA lie inside the source triangulation; applications that raise TriangleContainmentError are not judged",
                "buffer sharing between result and input is recorded, not judged (the statement forbids modification, not sharing)"]
 DECIDING_TAPS = ["Transform.apply"]
+REPLAY_PATHS = ['menpo/transform/test', 'menpo/shape', 'menpo/landmark/test', 'menpo/image/test', 'menpo/model/test']      # suite replay (thorough tier): the repository's own tests under these monitors
 SHARDS = {"quick": 8, "thorough": 16}
 
 
